@@ -286,3 +286,32 @@ package mobius
 //@   before call hotline.NewField#3 assert isnil(reqdata(0, 204)) ==> same(arg1, callres("(*hotline.flattenedFileObject).TransferSize"))
 //@   before call hotline.NewField#3 assert !isnil(reqdata(0, 204)) ==> len(arg1) == 4 && ptsto(arg1, hlFile.Ffo.FlatFileDataForkHeader.DataSize)
 //@   before call hotline.NewField#4 assert arg0[0] == 0 && arg0[1] == 207 && len(arg1) == 4 && ptsto(arg1, hlFile.Ffo.FlatFileDataForkHeader.DataSize)
+
+// ---------------------------------------------------------------------------------
+// C10: the folder download reply announces the item count and total size computed for the very
+// folder the request addresses; refusal only on the privilege.
+
+//@ func HandleDownloadFolder(cc *hotline.ClientConn, t *hotline.Transaction) (res []hotline.Transaction)
+//@   property C10
+//@   before call (*hotline.ClientConn).NewErrReply assert !priv(cc, 39)
+//@   before call hotline.CalcItemCount assert arg0 == callres("hotline.ReadPath", 0)
+//@   before call hotline.CalcTotalSize assert arg0 == callres("hotline.ReadPath", 0)
+//@   before call hotline.NewField#3 assert arg0[0] == 0 && arg0[1] == 220 && same(arg1, callres("hotline.CalcItemCount", 0))
+//@   before call hotline.NewField#2 assert arg0[0] == 0 && arg0[1] == 108 && same(arg1, callres("hotline.CalcTotalSize", 0))
+
+//@ func HandleUploadFolder(cc *hotline.ClientConn, t *hotline.Transaction) (res []hotline.Transaction)
+//@   property C10
+//@   before call (*hotline.ClientConn).NewErrReply#1 assert !priv(cc, 38)
+//@   before call (*hotline.ClientConn).NewErrReply#2 assert !priv(cc, 25)
+
+// ---------------------------------------------------------------------------------
+// C11: a folder is created only where nothing exists (the existence test and the creation concern
+// the same path); a file rename moves the wrapper, carrying the new name, within its own folder.
+
+//@ func HandleNewFolder(cc *hotline.ClientConn, t *hotline.Transaction) (res []hotline.Transaction)
+//@   property C11
+//@   before call (hotline.FileStore).Mkdir assert callres("os.IsNotExist") && arg1 == callarg("(hotline.FileStore).Stat", 1)
+
+//@ func HandleSetFileInfo(cc *hotline.ClientConn, t *hotline.Transaction) (res []hotline.Transaction)
+//@   property C11
+//@   before call (*hotline.fileWrapper).Move assert hlFile.Name == pbase(callres("hotline.ReadPath#2", 0)) && arg1 == callres("hotline.ReadPath#3", 0)
